@@ -24,6 +24,8 @@ type Comb struct {
 	JoinVar2   func(a, b chan int) <-chan int
 	JoinVar3   func(a, b, c chan int) <-chan int
 	JoinVar2R  func(a, b <-chan int) <-chan int
+	JoinVarN   func(ins []chan int) <-chan int // variadic form with NVar channels
+	NVar       int
 	Pipeline   func(f func(int) <-chan int, g func(int) <-chan int) func(int) <-chan int
 	Dup        func(in <-chan int) (<-chan int, <-chan int)
 	DupB       func(in chan int) (<-chan int, <-chan int)
@@ -355,6 +357,8 @@ func runScenario(cb *Comb, sc Scenario) (res scenResult) {
 		outs = []<-chan int{cb.JoinVar2R(ins[0], ins[1])}
 	case cb.JoinVar3 != nil:
 		outs = []<-chan int{cb.JoinVar3(ins[0], ins[1], ins[2])}
+	case cb.JoinVarN != nil:
+		outs = []<-chan int{cb.JoinVarN(ins)}
 	case cb.Pipeline != nil:
 		// f(a) streams the items of input 0 (fed by the producers); g(b) streams Items[1] items per b
 		per := 0
@@ -574,6 +578,8 @@ func scenariosFor(cb *Comb, seed int64, n int) []Scenario {
 			sc.NIn = 2
 		case cb.JoinVar3 != nil:
 			sc.NIn = 3
+		case cb.JoinVarN != nil:
+			sc.NIn = cb.NVar
 		case cb.Pipeline != nil:
 			sc.NIn = 1
 		default:
